@@ -553,3 +553,29 @@ Theorem C09_accepted_is_issued_or_collision : forall H dsz uni c r0 u0 ma toks h
        = calculate_digest H (hashalg c) ip (now r0) (secret c) enc (joined toks) (userid_typename ++ tag_of u0).
 Proof. exact accepted_is_issued_or_collision. Qed.
 Print Assumptions C09_accepted_is_issued_or_collision.
+
+(* ======================================================================================================
+   Third proof-only round: the cookie-attribute clause end to end, from the constructor keywords (helper or policy, omitted
+   keywords equal to the documented defaults) to EVERY Set-Cookie of the request. *)
+Require Import Verif.Proofs.C09_attrs.
+
+(* the headers remember() / forget() return, called on the helper or through the policy, in any request state: the configured
+   name, path, domain variant, Secure, HttpOnly, SameSite; Max-Age = the call's max_age or else the configured one; a value for
+   remember, the deletion (no value) for forget *)
+Theorem C09_returned_headers_attrs : forall H dsz uni pol omit c r st o hs k,
+  mask_ok omit (default_eqs c) = true ->
+  snd (any_step H dsz uni pol (construct pol omit c) r st o) = OutHdr (Some hs) ->
+  In k hs ->
+  attrs_ok c r (call_max_age o) k = true
+  /\ (match o with GForget => ck_value k = None | _ => exists v, ck_value k = Some v end).
+Proof. exact returned_headers_attrs. Qed.
+Print Assumptions C09_returned_headers_attrs.
+
+(* the ticket the automatic reissue attaches to the response, after any sequence of operations: same attributes, the
+   configured max_age, and it carries a value *)
+Theorem C09_reissued_cookie_attrs : forall H dsz uni pol omit c r ops k,
+  mask_ok omit (default_eqs c) = true ->
+  In k (response_cookies (fst (gen_run_ops H dsz uni (construct pol omit c) r st0 ops))) ->
+  attrs_ok c r (max_age c) k = true /\ exists v, ck_value k = Some v.
+Proof. exact reissued_cookie_attrs. Qed.
+Print Assumptions C09_reissued_cookie_attrs.
